@@ -226,9 +226,14 @@ def main():
     a = ap.parse_args()
     if a.setup: sys.exit(setup())
     seed = int(os.environ.get('VERIF_SEED', '1'))
-    cfg = PROPS[a.prop]
-    if cfg['kind'] == 't1':
-        sys.exit(run_t1(a.prop, cfg, a.tier, seed))
+    if a.prop in PROPS:
+        cfg = PROPS[a.prop]
+        if cfg['kind'] == 't1':
+            sys.exit(run_t1(a.prop, cfg, a.tier, seed))
+    # hand-model properties: checks/<cxx>.py (contract in checks/README.md)
+    import importlib
+    mod = importlib.import_module('checks.' + a.prop.lower())
+    sys.exit(mod.run(a.tier, seed))
 
 
 if __name__ == '__main__':
